@@ -11,6 +11,7 @@ import Alpen.Model.Retry
 import Alpen.Model.WorldOps
 import Alpen.Model.Import
 import Alpen.Model.Cli
+import Alpen.Model.Hsm
 /-!
 Line-protocol driver: one operation per line on stdin, one canonical answer line on
 stdout.  Strings travel as comma-separated code points (`-` = empty string).
@@ -38,6 +39,11 @@ def decNats (t : String) : Option (List Nat) :=
 def encNats (l : List Nat) : String :=
   if l.isEmpty then "-" else ",".intercalate (l.map toString)
 
+def insertSorted0 (x : Nat) : List Nat → List Nat
+  | [] => [x]
+  | y :: ys => if x ≤ y then x :: y :: ys else y :: insertSorted0 x ys
+def sortNats (l : List Nat) : List Nat := l.foldl (fun acc x => insertSorted0 x acc) []
+
 def decBool (t : String) : Option Bool :=
   if t = "1" then some true else if t = "0" then some false else none
 
@@ -63,6 +69,23 @@ def decKCopy : List String → Option KCopy
   | _ => none
 def decKReq : List String → Option KReq
   | [f, a, b, c, x] => do pure ⟨← f.toNat?, ← a.toNat?, ← b.toNat?, ← decBool c, ← decBool x⟩
+  | _ => none
+
+def decLfsRun (t : String) : Option LfsRun :=
+  if t = "missing" then some .missing else if t = "failed" then some .failed else if t = "timeout" then some .timeout
+  else if t.startsWith "ok:" then (decStr (t.drop 3).toString).map LfsRun.ok else none
+
+def decHsm (t : String) : Option (Option HsmState) :=
+  match t with
+  | "-" => some none | "missing" => some (some .missing) | "unarchived" => some (some .unarchived)
+  | "restored" => some (some .restored) | "restoring" => some (some .restoring) | "released" => some (some .released) | _ => none
+
+def hsmStr : Option HsmState → String
+  | none => "-" | some .missing => "missing" | some .unarchived => "unarchived" | some .restored => "restored"
+  | some .restoring => "restoring" | some .released => "released"
+
+def decRCopy : List String → Option RCopy
+  | [i, s, st] => do pure ⟨← i.toNat?, ← s.toNat?, ← decHsm st⟩
   | _ => none
 
 def decPNode : List String → Option PNode
@@ -192,6 +215,21 @@ def pure1 (toks : List String) : Option String :=
       let cs ← decRecs decKCopy copies; let sk ← decNats skipped; let kf ← decNats keepf
       let rs ← decRecs decKReq reqs
       pure (encNats (syncSel cs (fun f => sk.contains f) (fun f => kf.contains f) rs (← node.toNat?) (← group.toNat?)))
+  | ["hsmstate", path, srun, arun] => do
+      pure (hsmStr (hsmStateParse (← decStr path) (← decLfsRun srun) (← decLfsRun arun)))
+  | ["hsmrestoring", path, arun] => do
+      pure (match hsmRestoringParse (← decStr path) (← decLfsRun arun) with | none => "-" | some b => encBool b)
+  | ["rwait", rs, ss, f, st, rr] => do
+      let b : Rbk := ⟨← decNats rs, ← decNats ss⟩
+      let r ← if rr = "-" then some none else (decBool rr).map some
+      let (b', res) := restoreWait b (← f.toNat?) (← decHsm st) r
+      let rs := match res with | .wait => "wait" | .ready => "ready" | .error => "error"
+      pure s!"{rs} {encNats (sortNats b'.restoring)} {encNats (sortNats b'.started)}"
+  | ["hsmrelease", headroom, avail, copies] => do
+      pure (encNats (releaseFiles (← decInt headroom) (← decOptInt avail) (← decRecs decRCopy copies)))
+  | ["hsmrefresh", rd, st] => do
+      pure (match refreshOne (← decBool rd) (← decHsm st) with | none => "unchanged" | some (h, r) => s!"{h.toString}:{encBool r}")
+  | ["hsmopen", st] => do pure (encBool (hsmOpenOk (← decHsm st)))
   | ["cmdupd", c, f, s, y] => do
       pure (encBool (commandUpdates (← decBool c) (← decBool f) (← decBool s) (← decBool y)))
   | ["retry", ac, tx, cl, o0, o1] => do
@@ -229,11 +267,6 @@ def uoutStr : UOut → String
 def noteThread (s : St) (t : Nat) : St :=
   if s.udThreads.contains t then s else { s with udThreads := s.udThreads ++ [t] }
 
-def insertSorted (x : Nat) : List Nat → List Nat
-  | [] => [x]
-  | y :: ys => if x ≤ y then x :: y :: ys else y :: insertSorted x ys
-
-def sortNats (l : List Nat) : List Nat := l.foldl (fun acc x => insertSorted x acc) []
 
 def udDump (s : St) : String :=
   let ts := sortNats s.udThreads
